@@ -112,6 +112,8 @@ pub fn prop() -> HistProp {
     w.drain = 3;
     // the engine is paused and resumed in between (liquidations and settlements stay available)
     w.pause = 2;
+    // trading is halted, a liquidation happens meanwhile, trading resumes: all within one block
+    w.paused_liq = 3;
     w.ecfg = 2;
     w.vcfg = 2;
     w.rewire = 2;
